@@ -90,10 +90,10 @@ class Scenario:
         self.comp.add_thread(name, source, args, dynamic, method)
         self.programs[name] = source
 
-    def build(self, setup=None):
+    def build(self, setup=None, prefix=None):
         """compile done; run the setup thread concretely and make its final state the initial state"""
         self.protected = self.comp.apply_lock_protection()
-        self.ts = bmc.TS(self.model, self.comp)
+        self.ts = bmc.TS(self.model, self.comp, prefix=prefix)
         ts = self.ts
         if setup:
             st = ts.init_state()
@@ -258,3 +258,340 @@ class PoolScenario(Scenario):
             else:
                 fixed[name] = (src, args, is_setup)
         return _replay.run_schedule(fixed, order, env)
+
+
+# ----------------------------------------------------------------------------- worker gateway scenarios (C14, C11)
+
+BODY_KINDS = {"return": None, "raise": "TaskError", "sysexit": "SystemExit", "kbd": "KeyboardInterrupt", "block": None, "swallow": None}
+CLOSE_OK, CLOSE_DEADLOCK, CLOSE_ERROR, CLOSE_INTERRUPT = 1, 2, 3, 4
+
+
+class GatewayScenario(Scenario):
+    """The worker side's execution machinery: real WorkerGateway._local_schedulexec / executetask / serve /
+    _terminate_execution on top of the real WorkerPool; remote bodies are stubs with a chosen outcome."""
+
+    def __init__(self, name, backend, bodies: dict, nworkers=1, extra_events=2, hunks=None):
+        n = len(bodies)
+        self.bodies = bodies
+        super().__init__(name, counts={"Reply": n, "WorkerPool": 1, "WorkerGateway": 1, "BaseGateway": 0, "Channel": n, "Event": 2 + n + extra_events,
+                                       "Lock": 1, "Set": 1, "List": 1},
+                         task_specs={b: k for b, k in bodies.items()}, backend=backend,
+                         extra_classes={"BaseGateway": gb.BaseGateway, "WorkerGateway": gb.WorkerGateway, "Channel": gb.Channel},
+                         extra_stubs=self._stubs(), task_shape=["S", [["S", ["S", "S", "S", "S"]]], "S"])
+        ci = self.model.classes["Channel"]
+        ci.fields["v_closed"] = INT0           # ghost: how the (stubbed) channel.close was called
+        ci._stores_outside_init.add("v_closed")
+        self.backend = backend
+        self.gw = self.obj("WorkerGateway")
+        self.channels = [self.obj("Channel", k) for k in range(n)]
+        self.model.vars["F.WorkerGateway.execmodel[0]"] = self.em
+        for k in range(n):
+            self.model.var(f"F.Channel.v_closed[{k}]", INT0)
+        self.static = {}
+        self.bad, self.good_flags, self.observed = [], [], []
+        self.nworkers = nworkers
+        for k in range(nworkers):
+            self.thread(f"worker{k}", "def p(pool, reply):\n    pool._perform_spawn(reply)\n", dynamic=True, method="_perform_spawn")
+
+    # the Channel ghost field must exist before compilation
+    def _stubs(self):
+        sc = self
+
+        def s_close(comp, ctx, node, cur):
+            cur, ch = comp.ev(ctx, node.func.value, cur)
+            kind = C(pyint(CLOSE_OK))
+            if node.args:
+                a = node.args[0]
+                if isinstance(a, ast.Name) and a.id == "MAIN_THREAD_ONLY_DEADLOCK_TEXT":
+                    kind = C(pyint(CLOSE_DEADLOCK))
+                elif isinstance(a, ast.Name) and a.id == "INTERRUPT_TEXT":
+                    kind = C(pyint(CLOSE_INTERRUPT))
+                else:
+                    cur, _ = comp.ev(ctx, a, cur)
+                    kind = C(pyint(CLOSE_ERROR))
+            n = comp.m.new_node()
+            # first close wins (Channel.close ignores redundant calls)
+            old = ("fld", ch, "v_closed")
+            comp.emit(ctx, cur, n, updates=[(("fld", ch, "v_closed"), ("ite", ("eq", old, C(INT0)), kind, old))], visible=True, info="channel.close (stub: records the kind)", node=node)
+            return n, C(NONE)
+
+        def s_loads_internal(comp, ctx, node, cur):
+            cur, v = comp.ev(ctx, node.args[0], cur)
+            return cur, ("tuple", [v, C(NONE), C(NONE), C(comp.U.const("<emptydict>"))])
+
+        def s_compile(comp, ctx, node, cur):
+            a = node.args[0]
+            if isinstance(a, ast.BinOp):
+                a = a.left
+            return comp.ev(ctx, a, cur)
+
+        def s_exec(comp, ctx, node, cur):
+            cur, tok = comp.ev(ctx, node.args[0], cur)
+            return sc._body(comp, ctx, tok, node, cur)
+
+        def s_geterrortext(comp, ctx, node, cur):
+            return cur, C(comp.U.const("<errortext>"))
+
+        def s_initreceive(comp, ctx, node, cur):
+            n = comp.m.new_node()
+            comp.emit(ctx, cur, n, updates=[(V(comp.m.var("G.serving", INT0)), C(pyint(1)))], visible=True, info="_initreceive (stub: receiver thread exists)", node=node, sync="await")
+            return n, C(NONE)
+
+        def s_join(comp, ctx, node, cur):
+            return cur, C(NONE)
+
+        def s_call_value(comp, ctx, fval, node, cur):
+            # Reply.run: func(*args, **kwargs) with func == bound WorkerGateway.executetask
+            if not (node.args and isinstance(node.args[0], ast.Starred)):
+                # executetask's `function(channel, **kwargs)`: only reached with a call_name, which the scenarios never pass
+                n = comp.m.new_node()
+                comp.emit(ctx, cur, n, updates=[(V(comp.m.errors_var), C(1))], visible=False, info="call of a remote function by name (not modelled)")
+                return n, C(NONE)
+            cur, tv = comp.ev(ctx, node.args[0].value, cur)
+            info = comp.m.classes["WorkerGateway"]
+            return comp.inline(ctx, info.methods["executetask"], C(sc.gw), [], [], cur, node, "WorkerGateway", pre_evaluated=tv[1])
+
+        def s_kill(comp, ctx, node, cur):
+            n = comp.m.new_node()
+            comp.emit(ctx, cur, n, updates=[(V(comp.m.var("G.sigint", INT0)), C(pyint(1)))], visible=True, info="os.kill(getpid(), SIGINT) (stub)", node=node, sync="await")
+            return n, C(NONE)
+
+        def s_exit(comp, ctx, node, cur):
+            n = comp.m.new_node()
+            comp.emit(ctx, cur, n, updates=[(V(comp.m.var("G.os_exit", INT0)), C(pyint(1)))], visible=True, info="os._exit(1) (stub: process gone)", node=node, sync="await")
+            # nothing runs after os._exit: this thread never continues
+            dead = comp.m.new_node()
+            comp.emit(ctx, n, dead, guard=C(0), visible=True, info="(unreachable)")
+            return dead, C(NONE)
+
+        return {"close": s_close, "loads_internal": s_loads_internal, "compile": s_compile, "exec": s_exec, "_geterrortext": s_geterrortext,
+                "_initreceive": s_initreceive, "join": s_join, "call_value": s_call_value,
+                "attr:channel.gateway._channelfactory.finished": C(FALSE), "os.kill": s_kill, "os._exit": s_exit, "os.getpid": lambda comp, ctx, node, cur: (cur, C(NONE)),
+                "interrupt_main": lambda comp, ctx, node, cur: (cur, C(NONE))}
+
+    def _body(self, comp, ctx, tok, node, cur):
+        """the remote body: outcome chosen by the body token; ghost bookkeeping of thread / order / overlap"""
+        join = comp.m.new_node()
+        other = cur
+        me_code = C(INT0 + 1 + list(comp.m.threads).index(ctx.thread))
+        seq = comp.m.var("G.seq", INT0)
+        act = comp.m.var("G.active", INT0)
+        ovl = comp.m.var("G.overlap", INT0)
+        for name, kind in self.bodies.items():
+            t = comp.U.const(("task", name))
+            here, nxt = comp.m.new_node(), comp.m.new_node()
+            comp.emit(ctx, other, here, guard=("eq", tok, C(t)), visible=False)
+            comp.emit(ctx, other, nxt, guard=("ne", tok, C(t)), visible=False)
+            other = nxt
+            ran, fin = comp.m.var(f"G.ran_{name}", INT0), comp.m.var(f"G.fin_{name}", INT0)
+            n1 = comp.m.new_node()
+            comp.emit(ctx, here, n1, updates=[(V(ran), ("padd", V(ran), C(pyint(1)))), (V(comp.m.var(f"G.thr_{name}", INT0)), me_code),
+                                              (V(comp.m.var(f"G.ord_{name}", INT0)), V(seq)), (V(seq), ("padd", V(seq), C(pyint(1)))),
+                                              (V(act), ("padd", V(act), C(pyint(1)))), (V(ovl), ("ite", ("ne", V(act), C(INT0)), C(pyint(1)), V(ovl)))],
+                      visible=True, info=f"body {name} starts", node=node)
+            if kind in ("block", "swallow"):
+                gate = comp.m.var(f"G.release_{name}", INT0)
+                n2 = comp.m.new_node()
+                comp.emit(ctx, n1, n2, guard=("ne", V(gate), C(INT0)), visible=True, info=f"body {name} released", node=node, sync="await")
+                if kind == "swallow":
+                    # a body that catches KeyboardInterrupt and keeps going: the interrupt does not end it
+                    pass
+                n1 = n2
+            n3 = comp.m.new_node()
+            comp.emit(ctx, n1, n3, updates=[(V(fin), C(pyint(1))), (V(act), ("psub", V(act), C(pyint(1))))], visible=True, info=f"body {name} ends", node=node)
+            exc = BODY_KINDS[kind]
+            if exc:
+                comp.raise_to(ctx, n3, C(comp.U.exc(exc, TaskError if exc == "TaskError" else None)), node)
+            else:
+                comp.emit(ctx, n3, join, visible=False)
+        bad = comp.m.new_node()
+        comp.emit(ctx, other, bad, updates=[(V(comp.m.errors_var), C(1))], visible=False, info="exec of unknown body")
+        comp.emit(ctx, bad, join, visible=False)
+        return join, C(NONE)
+
+    def add(self, name, src, args, setup=False):
+        self.thread(name, src, args=args)
+        self.static[name] = (src, args, setup)
+
+    def finish(self):
+        # serve()'s own initialisation (pool, event) is run concretely up to the point where the receiver thread exists
+        self.build(setup=None, prefix=("main", lambda st: st.get("G.serving", INT0) == INT0 + 1) if "main" in self.static else None)
+        return self
+
+    def closed_var(self, k):
+        return f"F.Channel.v_closed[{k}]"
+
+    def observe_model(self, st):
+        ts = self.ts
+        d = {g: st.get(f"G.{g}", INT0) - INT0 for g in self.observed}
+        for k in range(len(self.channels)):
+            d[f"closed{k}"] = st[self.closed_var(k)] - INT0
+        d["finished"] = sorted(t for t in self.static if st[f"pc.{t}"] == ts.end[t])
+        return d
+
+    def observe_real(self, ghost, done, blocked):
+        d = {g: int(ghost.get(g, 0)) for g in self.observed}
+        for k in range(len(self.channels)):
+            d[f"closed{k}"] = int(ghost.get(f"closed{k}", 0))
+        d["finished"] = sorted(done)
+        return d
+
+    def witness(self, enc, K):
+        cons = [enc.at_end(K, t) for t in self.static]
+        cons += [enc.var(K, f"G.{g}") == INT0 + 1 for g in self.good_flags]
+        return cons
+
+    # ---- replay on the real classes
+    def replay(self, order):
+        import builtins as _bi
+
+        bodies = self.bodies
+        backend = self.backend
+        slots = {"_perform_spawn": [t for t in self.model.threads if t.startswith("worker")]}
+        names = list(self.model.threads)
+        state = {}
+
+        def env(sched, G):
+            em = _replay.ReplayExecModel(sched, backend, slots)
+
+            class IO:
+                execmodel = em
+
+                def close_read(self):
+                    pass
+
+                def close_write(self):
+                    pass
+
+            class StubChannel(gb.Channel):
+                def __init__(self, gateway, id, k):
+                    self.gateway, self.id, self._k = gateway, id, k
+                    self._executing = False
+
+                def __del__(self):
+                    pass
+
+                def close(self, error=None):
+                    kind = CLOSE_OK
+                    if error is not None:
+                        kind = {gb.MAIN_THREAD_ONLY_DEADLOCK_TEXT: CLOSE_DEADLOCK, gb.INTERRUPT_TEXT: CLOSE_INTERRUPT}.get(error, CLOSE_ERROR)
+                    if not getattr(G, f"closed{self._k}"):
+                        setattr(G, f"closed{self._k}", kind)
+
+                @property
+                def v_closed(self):
+                    return getattr(G, f"closed{self._k}")
+
+            class GW(gb.WorkerGateway):
+                def _initreceive(self):
+                    G.serving = 1
+                    sched.sync("await")
+
+                def join(self, timeout=None):
+                    pass
+
+            gw = GW(io=IO(), id="replay-worker", _startcount=2)
+            gw._geterrortext = lambda exc: "<errortext>"
+            chans = [StubChannel(gw, 2 * k + 1, k) for k in range(len(bodies))]
+            import threading as _th
+
+            def mk(name, kind):
+                def body():
+                    setattr(G, f"ran_{name}", getattr(G, f"ran_{name}") + 1)
+                    setattr(G, f"thr_{name}", 1 + names.index(sched.me()))
+                    setattr(G, f"ord_{name}", G.seq)
+                    G.seq = G.seq + 1
+                    if G.active != 0:
+                        G.overlap = 1
+                    G.active = G.active + 1
+                    if kind in ("block", "swallow"):
+                        import time as _t
+
+                        t0 = _t.time()
+                        while not getattr(G, f"release_{name}") and _t.time() - t0 < 20:
+                            _t.sleep(0.005)
+                        sched.sync("await")
+                    setattr(G, f"fin_{name}", 1)
+                    G.active = G.active - 1
+                    exc = BODY_KINDS[kind]
+                    if exc == "TaskError":
+                        raise TaskError(name)
+                    if exc == "SystemExit":
+                        raise SystemExit(3)
+                    if exc == "KeyboardInterrupt":
+                        raise KeyboardInterrupt()
+
+                return body
+
+            def await_(fn):
+                import time as _t
+
+                t0 = _t.time()
+                while not fn() and _t.time() - t0 < 20:
+                    _t.sleep(0.005)
+                sched.sync("await")
+
+            d = {"await_": await_, "EM": em, "GWOBJ": gw, "TaskError": TaskError}
+            for k, (n, kind) in enumerate(bodies.items()):
+                fn = mk(n, kind)
+                setattr(_bi, f"__verif_body_{n}", fn)
+                d[n] = f"__verif_body_{n}()"          # the 'source' that executetask compiles and execs
+                d[f"CH{k}"] = chans[k]
+            state["loads"] = gb.loads_internal
+            gb.loads_internal = lambda data, *a, **k: (data, None, None, {})
+            state["kill"], state["exit"] = gb.os.kill, gb.os._exit
+
+            class _Os:
+                def __getattr__(self, n):
+                    return getattr(state["os"], n)
+
+                def kill(self, pid, sig):
+                    G.sigint = 1
+                    sched.sync("await")
+
+                def _exit(self, code):
+                    G.os_exit = 1
+                    sched.sync("await")
+                    import threading as _t2
+
+                    _t2.Event().wait()   # the process is gone: this thread never continues
+
+                def getpid(self):
+                    return 0
+
+            state["os"] = gb.os
+            gb.os = _Os()
+            return d
+
+        programs = {}
+        for name, (src, args, is_setup) in self.static.items():
+            src2 = _re.sub(r"await_\((.*)\)\n", r"await_(lambda: \1)\n", src)
+            a2 = {}
+            for k, v in args.items():
+                if v == self.gw:
+                    a2[k] = "GWOBJ"
+                elif v in self.channels:
+                    a2[k] = f"CH{self.channels.index(v)}"
+                elif v == self.em:
+                    a2[k] = "EM"
+                else:
+                    tok = [n for n in bodies if self.U.codes.get(("k", "tuple", ("task", n))) == v]
+                    a2[k] = tok[0] if tok else v
+            programs[name] = (src2, a2, is_setup)
+        try:
+            return _replay.run_schedule(programs, order, env)
+        finally:
+            if "loads" in state:
+                gb.loads_internal = state["loads"]
+                gb.os = state["os"]
+
+
+class _ChanView:
+    """what harness programs see of a channel: the stub channel plus the recorded close kind"""
+
+    def __init__(self, ch, G, k):
+        self.ch, self._G, self._k = ch, G, k
+
+    @property
+    def v_closed(self):
+        return getattr(self._G, f"closed{self._k}")
